@@ -10,6 +10,7 @@ V: spec/C05Trace.tla - for every (n_spinorbitals, n_electrons, spin, encoding, o
 """
 import copy
 import itertools
+import random
 import os
 import sys
 import warnings
@@ -84,19 +85,43 @@ def mk_job(jobs, meta, kind, mapping, nso, utd, bits, bad, width, ops, info, **f
     return j
 
 
-def ref_case(chk, jobs, meta, mapping, nso, utd, ne, spin):
-    from tangelo.toolboxes.qubit_mappings.statevector_mapping import get_reference_circuit
-    info = {"ne": ne, "spin": spin}
+def edit_in_place(arr):
+    """what a caller may legitimately do with an array it was handed: overwrite it (all bits flipped)."""
     try:
+        arr[...] = 1 - arr
+    except (ValueError, TypeError):
+        pass            # read-only result: nothing to corrupt
+
+
+def ref_case(chk, jobs, meta, mapping, nso, utd, ne, spin, hist=False):
+    """hist=False: one call of get_reference_circuit.  hist=True ('results are fresh objects'): a first round of calls whose
+    results are edited in place by the caller (array overwritten, a gate appended to the circuit), then the SAME calls again;
+    the second get_vector and the second get_reference_circuit are recorded and must still encode the requested occupations."""
+    from tangelo.toolboxes.qubit_mappings.statevector_mapping import get_reference_circuit, get_vector, vector_to_circuit
+    from tangelo.linq import Gate
+    info = {"ne": ne, "spin": spin, "hist": hist}
+    try:
+        na = (ne + 1) // 2 if spin is None else (ne + spin) // 2
+        # the operator encoder gets the spin the state has (scBK needs it); None -> the documented default filling
+        ops = number_ops(mapping, nso, utd, ne, 2 * na - ne)
         with warnings.catch_warnings():
             warnings.simplefilter("ignore")
-            circ = get_reference_circuit(nso, ne, mapping, up_then_down=utd, spin=spin)
-        bits, bad, width = read_circuit(circ)
-        # the operator encoder gets the spin the state has (scBK needs it); None -> the documented default filling
-        na = (ne + 1) // 2 if spin is None else (ne + spin) // 2
-        ops = number_ops(mapping, nso, utd, ne, 2 * na - ne)
-        mk_job(jobs, meta, "ref", mapping, nso, utd, bits, bad, width, ops, info,
-               ne=ne, spin=0 if spin is None else spin, dflt=spin is None)
+            recorded = []
+            if hist:
+                first = get_vector(nso, ne, mapping, up_then_down=utd, spin=spin)
+                edit_in_place(first)
+                c0 = get_reference_circuit(nso, ne, mapping, up_then_down=utd, spin=spin)
+                if c0.width > 0:
+                    c0.add_gate(Gate("X", target=0))
+                c1 = vector_to_circuit(get_vector(nso, ne, mapping, up_then_down=utd, spin=spin))
+                recorded.append(("get_vector-after-edit", read_circuit(c1)))      # read BEFORE this caller edits c1 too
+                if c1.width > 0:
+                    c1.add_gate(Gate("X", target=c1.width - 1))
+            recorded.append(("get_reference_circuit" + ("-after-edit" if hist else ""),
+                             read_circuit(get_reference_circuit(nso, ne, mapping, up_then_down=utd, spin=spin))))
+        for source, (bits, bad, width) in recorded:
+            mk_job(jobs, meta, "ref", mapping, nso, utd, bits, bad, width, ops, dict(info, source=source),
+                   ne=ne, spin=0 if spin is None else spin, dflt=spin is None)
     except OffGrid:
         chk.inconclusive += 1
     except Exception as e:
@@ -104,13 +129,15 @@ def ref_case(chk, jobs, meta, mapping, nso, utd, ne, spin):
                       dict(info, kind="ref", mapping=mapping, nso=nso, utd=utd))
 
 
-def vec_case(chk, jobs, meta, mapping, nso, utd, vec):
+def vec_case(chk, jobs, meta, mapping, nso, utd, vec, hist=False):
     from tangelo.toolboxes.qubit_mappings.statevector_mapping import get_mapped_vector, vector_to_circuit
     import numpy as np
-    info = {"occvec": list(vec)}
+    info = {"occvec": list(vec), "hist": hist}
     try:
         with warnings.catch_warnings():
             warnings.simplefilter("ignore")
+            if hist:        # an earlier caller overwrote the array it was handed
+                edit_in_place(get_mapped_vector(np.array(vec, dtype=int), mapping, up_then_down=utd))
             mv = get_mapped_vector(np.array(vec, dtype=int), mapping, up_then_down=utd)
             circ = vector_to_circuit(mv)
         bits, bad, width = read_circuit(circ)
@@ -130,8 +157,9 @@ def vec_case(chk, jobs, meta, mapping, nso, utd, vec):
                       dict(info, kind="vec", mapping=mapping, nso=nso, utd=utd))
 
 
-def gen_jobs(chk, jobs, meta):
+def gen_jobs(chk, jobs, meta, rng=None):
     quick = chk.quick
+    rng = rng or random.Random(chk.seed)
     ns_ref = [2, 4, 6] if quick else [2, 4, 6, 8, 10, 12]
     ns_vec = [2, 4, 6] if quick else [2, 4, 6, 8]
     for nso in ns_ref:
@@ -146,7 +174,20 @@ def gen_jobs(chk, jobs, meta):
             for utd in (False, True):
                 for vec in itertools.product((0, 1), repeat=nso):
                     vec_case(chk, jobs, meta, mapping, nso, utd, vec)
-    return n_ref
+    n_plain = len(jobs)
+    # ---- history part: results must be fresh objects (the same sweep again, after callers edited earlier results in place)
+    for nso in ([2, 4, 6] if quick else [2, 4, 6, 8]):
+        for mapping in MAPPINGS:
+            for utd in (False, True):
+                for ne in range(nso + 1):
+                    for spin in spins_for(nso, ne):
+                        ref_case(chk, jobs, meta, mapping, nso, utd, ne, spin, hist=True)
+                vecs = list(itertools.product((0, 1), repeat=nso))
+                if len(vecs) > 16:
+                    vecs = rng.sample(vecs, 16 if quick else 48)
+                for vec in vecs:
+                    vec_case(chk, jobs, meta, mapping, nso, utd, vec, hist=True)
+    return n_ref, n_plain
 
 
 def negative_controls(jobs, verdicts):
@@ -204,7 +245,7 @@ def s_part(chk):
 def run(chk):
     s_part(chk)
     jobs, meta = [], {}
-    n_ref = gen_jobs(chk, jobs, meta)
+    n_ref, n_plain = gen_jobs(chk, jobs, meta)
     verdicts, results = tlc.judge("C05Trace", jobs, "c05/v", {"M": M}, timeout=7200)
     for r in results:
         chk.add_tlc(r)
@@ -217,7 +258,7 @@ def run(chk):
     for j in jobs:
         m = meta[j["id"]]
         v = verdicts[j["id"]]
-        s = stats.setdefault("%s:%s" % (m["kind"], m["mapping"]), [0, 0])
+        s = stats.setdefault("%s%s:%s" % (m["kind"], "-after-edit" if m.get("hist") else "", m["mapping"]), [0, 0])
         s[0] += 1
         chk.add_traces(1, m["kind"])
         if v == "ok":
@@ -225,7 +266,7 @@ def run(chk):
         if v == "malformed":
             raise tlc.TLCError("malformed record %s" % m)
         s[1] += 1
-        key = "%s:%s:utd=%s:%s" % (m["kind"], m["mapping"], m["utd"], v)
+        key = "%s%s:%s:utd=%s:%s" % (m["kind"], "-after-edit" if m.get("hist") else "", m["mapping"], m["utd"], v)
         per_key[key] = per_key.get(key, 0) + 1
         if (per_key[key] > 2 or len(chk.violations) >= 48) and chk.match_known(key) is None:
             continue        # the harness writes at most 50 replay files: every printed VIOLATION must have one
@@ -236,9 +277,9 @@ def run(chk):
     chk.part("negative_controls", corrupted=len(ctl), rejected_as_expected=len(ctl) - len(wrong))
     if wrong:
         raise tlc.TLCError("binding failure: corrupted records not rejected as expected: %s" % wrong[:5])
-    chk.part("V", jobs=len(jobs), reference_circuits=n_ref, mapped_vectors=len(jobs) - n_ref,
+    chk.part("V", jobs=len(jobs), reference_circuits=n_ref, mapped_vectors=n_plain - n_ref, after_in_place_edit=len(jobs) - n_plain,
              by_kind={k: {"n": v[0], "bad": v[1]} for k, v in sorted(stats.items())})
-    for jid in (1, n_ref, len(jobs)):
+    for jid in (1, n_ref, n_plain, len(jobs)):
         j = jobs[jid - 1]
         chk.sample({"record": {k: j[k] for k in ("kind", "nso", "n", "x", "ne", "spin", "dflt", "occvec")},
                     "Q[0]": j["Q"][0] if j["Q"] else None, "meta": meta[jid], "verdict": verdicts[jid]})
@@ -258,17 +299,18 @@ def replay(chk, rec):
     c2.known = []
     jobs, meta = [], {}
     if m["kind"] == "ref":
-        ref_case(c2, jobs, meta, m["mapping"], m["nso"], m["utd"], m["ne"], m["spin"])
+        ref_case(c2, jobs, meta, m["mapping"], m["nso"], m["utd"], m["ne"], m["spin"], hist=m.get("hist", False))
     else:
-        vec_case(c2, jobs, meta, m["mapping"], m["nso"], m["utd"], tuple(m["occvec"]))
+        vec_case(c2, jobs, meta, m["mapping"], m["nso"], m["utd"], tuple(m["occvec"]), hist=m.get("hist", False))
     if c2.violations:
         print("code-level failure reproduced:", c2.violations[0][:2])
         return False
     verdicts, _ = tlc.judge("C05Trace", jobs, "c05/replay", {"M": M})
-    j = jobs[0]
     print("case:", m)
-    print("state bits read off the code's circuit:", j["x"], " TLC verdict:", verdicts[j["id"]])
-    return verdicts[j["id"]] == "ok"
+    for j in jobs:
+        print("state bits read off the code's circuit (%s):" % meta[j["id"]].get("source", "get_mapped_vector"), j["x"],
+              " TLC verdict:", verdicts[j["id"]])
+    return all(verdicts[j["id"]] == "ok" for j in jobs)
 
 
 if __name__ == "__main__":
